@@ -359,6 +359,13 @@ def check_ova(case):
                     "pc:equivariance", lambda: f"{name} perm {perm}")
     acc = np.asarray(c.accuracy(), dtype=float)
     require(acc.shape == lead, "pc:accuracy-shape", f"{acc.shape}")
+    # one matrix of the stack, picked by indexing, answers like its slice of the stack
+    if lead and 0 not in lead:
+        sub = c[0]
+        require(np.array_equal(sub.matrix, A_in[0]) and list(sub.classes) == list(c.classes), "pc:getitem", "c[0]")
+        require(np.array_equal(np.asarray(sub.tpr()), np.asarray(c.tpr())[0], equal_nan=True)
+                and np.array_equal(np.asarray(sub.accuracy()), acc[0], equal_nan=True), "pc:getitem",
+                "metrics of c[0] differ from element 0 of the vectorised metrics")
     for b, M in enumerate(Af):
         total = sum(sum(r) for r in M)
         tr = sum(M[j][j] for j in range(K))
